@@ -3,7 +3,7 @@ CONSTANTS
   MaxUnits = 2
   MaxDepth = 2
   MaxExec = 1
-  Impl = "asis"
-  Eager = FALSE
-INVARIANTS NothingLeft
+  Impl = "fixed"
+  Eager = TRUE
+INVARIANTS TypeOK Accounted NothingLeft Emit
 CHECK_DEADLOCK FALSE
